@@ -7,7 +7,12 @@ time under a schedule.  Schedules: targeted preemption between the read-unlock a
 uniform / bursty / PCT-like random schedules, and (thorough tier) every interleaving of two single-call threads plus every
 schedule with at most three preemptions of two threads with two calls each.
 chk  = the trace is accepted event by event by the executable model VecConc.vexec and ends with every thread idle, lock free;
-spec = SpecC10.spec_c10 on the call / return markers of the same trace."""
+spec = SpecC10.spec_c10_strict (the property text read literally: ONE linearisation of all calls, collect as one atomic action with
+keys and values) on the call / return markers of the same trace.  A strict failure is a failing input unless the case is in the class
+`known_c10` of the known finding C10-collect-values-not-snapshot (strict fails, the relaxed spec - atomic key set + one linearised read
+per child - holds, a collection overlaps updates to two different tuples) AND known_findings.json lists that finding with status
+known; then `KNOWN-FINDING: property=C10 C10-collect-values-not-snapshot: ...` is printed.  An exhausted search budget counts as pass
+and is reported in the evidence (strict_budget_exhausted)."""
 import itertools
 from concprop import *
 
@@ -100,7 +105,8 @@ class C10(ConcProp):
     imports = "Require Import PV.Model.VecConc PV.Spec.SpecC10."
     case_type = "nat * nat * list event"
     chk_def = "Definition chk (c : nat * nat * list event) : bool := vcheck (fst (fst c)) (snd (fst c)) (snd c)."
-    spec_def = "Definition chk_spec (c : nat * nat * list event) : bool := spec_c10 (fst (fst c)) (snd c)."
+    spec_def = "Definition chk_spec (c : nat * nat * list event) : bool := spec_c10_strict (fst (fst c)) (snd c)."
+    known_id = "C10-collect-values-not-snapshot"
     rule = ("one IntCounterVec (1-2 labels), 2-3 threads, 1-4 calls each over 2-3 overlapping label-value tuples, distinct power-of-two "
             "increments; schedules: targeted preemption between read-unlock and write-lock of racing first requests, uniform / bursty / "
             "PCT-like random, thorough: all interleavings of 2 threads x 1 call and all schedules with <= 3 preemptions of 2 threads x 2 calls; "
@@ -116,13 +122,18 @@ class C10(ConcProp):
         "Rust's type system (the guard types), not by the model",
         "one global sequentially consistent memory for the lock word and the child cells (the child update is a Relaxed fetch_add on a "
         "single cell; cross-cell staleness of Relaxed loads in collect is not exhibited)",
-        "the values of one collection are read child by child: the claim is an atomic key set plus one linearised read per child, "
-        "not an atomic snapshot of all values",
+        "the values of one collection are read child by child: what is proved is an atomic key set plus one linearised read per child; "
+        "the literal statement (collect as one atomic action with values) is refuted (c10_strict_refuted) and recorded as known finding "
+        "C10-collect-values-not-snapshot; cases in its class (known_c10) are excluded from violations",
+        "the linearisation searches are budgeted (30000 nodes per trace): an exhausted budget counts as pass (strict_budget_exhausted in the evidence)",
     ]
 
     # fixed scenarios that always run first: the two-creator race, three creators, a handle used after removal, recreate after
     # removal between two collections, remove racing with a creator
     corpus = [
+        # witness of the known finding C10-collect-values-not-snapshot (Props/C10.v c10_strict_refuted)
+        mk(1, [[("withinc", ["a"], 4), ("withinc", ["b"], 8), ("withinc", ["a"], 1), ("withinc", ["b"], 2)], [("vcollect",)]],
+           " ".join(["0"] * 14 + ["1"] * 3 + ["0"] * 10 + ["1"] * 10), "known-witness"),
         mk(1, [[("withinc", ["a"], 1), ("vcollect",)], [("withinc", ["a"], 2)]], "0 0 0 1 1 1 1 0 1 1 1 0 0 0 0 0 0 0 0 0", "corpus"),
         mk(1, [[("withinc", ["a"], 1)], [("withinc", ["a"], 2)], [("withinc", ["a"], 4), ("vcollect",)]],
            "0 0 0 1 1 1 2 2 2 2 1 0 2 2 1 0 1 0 1 0 2 2 2 2 2 2 2", "corpus"),
@@ -173,6 +184,15 @@ class C10(ConcProp):
             r.shuffle(progs)
             n = sum(op_steps(o) for p in progs for o in p) + 6
             scs.append(mk(nl, progs, gen_schedule(r, len(progs), n).replace("s", ""), "pingpong"))
+        # 3b. a collection preempted between its per-child loads while another thread updates two children in turn
+        #     (the shape of the known finding C10-collect-values-not-snapshot; whether it is hit depends on HashMap iteration order)
+        for i in range(40 if quick else 300):
+            keys = key_pool(r, 1, 3); dist = Dist(); ka, kb = keys[0], keys[1]
+            if r.random() < 0.5: ka, kb = kb, ka
+            a = [("withinc", ka, dist.next()), ("withinc", kb, dist.next()), ("withinc", ka, dist.next()), ("withinc", kb, dist.next())]
+            b = [("vcollect",)] + ([("vcollect",)] if r.random() < 0.3 else [])
+            sched = [0] * 14 + [1] * r.choice([3, 3, 4]) + [0] * r.choice([5, 10, 10]) + [r.randrange(2) for _ in range(20)]
+            scs.append(mk(1, [a, b], " ".join(map(str, sched)), "snapshot"))
         # 4. sequential histories: one thread
         for i in range(100 if quick else 400):
             nl = r.choice([1, 2]); keys = key_pool(r, nl, 3); dist = Dist()
@@ -207,6 +227,73 @@ class C10(ConcProp):
                 scs.append(mk(1, [pa, pb], " ".join(map(str, s)), "preemption-bounded"))
         return scs
 
+    # ---------------------------------------------------------------- comparison with the known-finding class
+    def known_entry(self):
+        return [k for k in load_known() if k.get("property") == self.pid and k.get("id") == self.known_id and k.get("status") == "known"]
+
+    def compare(self, cases, tag="cases"):
+        """as ConcProp.compare, but the spec side is one pass of SpecC10.classify per case (proved equal to spec_c10_strict / known_c10 /
+        strict_unknown: Props/C10.v c10_classifier_is_spec); cases of the known class are not spec failures while the finding is listed"""
+        d = os.path.join(BUILD, "cases", self.pid if tag == "cases" else self.pid + "_" + tag)
+        shutil.rmtree(d, ignore_errors=True); os.makedirs(d)
+        n = len(cases)
+        nsh = min(NPROC, max(1, (n + 19) // 20))
+        per = (n + nsh - 1) // nsh if n else 1
+        files = []
+        for k in range(nsh):
+            lo, hi = k * per, min(n, (k + 1) * per)
+            if lo >= hi: continue
+            path = os.path.join(d, "cases_%d.v" % k)
+            with open(path, "w") as f:
+                f.write(CONC_HDR % self.imports)
+                f.write("Definition cases : list (%s) := [\n" % self.case_type)
+                f.write(";\n".join(cases[lo:hi]))
+                f.write("].\n%s\nEval vm_compute in failing chk %d cases.\n" % (self.chk_def, lo))
+                f.write("Definition cls : list N := Eval vm_compute in map (fun c : %s => classify (fst (fst c)) (snd c)) cases.\n" % self.case_type)
+                f.write("Eval vm_compute in failing (fun x => negb ((x =? 1) || (x =? 2))) %d cls.\n" % lo)   # strict spec fails
+                f.write("Eval vm_compute in failing (fun x => negb (x =? 1)) %d cls.\n" % lo)                  # in the known class
+                f.write("Eval vm_compute in failing (fun x => negb (x =? 3)) %d cls.\n" % lo)                  # strict search out of budget
+            files.append(path)
+        procs = [subprocess.Popen(["timeout", "900", "coqc", "-noglob", "-Q", COQ, "PV", p], stdout=subprocess.PIPE, stderr=subprocess.STDOUT, text=True) for p in files]
+        a, b, kn, bu, errors = [], [], [], [], []
+        for p, path in zip(procs, files):
+            out = p.communicate()[0]
+            if p.returncode != 0:
+                errors.append((path, out[-3000:])); continue
+            ls = parse_nlist(out)
+            if len(ls) > 0: a += ls[0]
+            if len(ls) > 1: b += ls[1]
+            if len(ls) > 2: kn += ls[2]
+            if len(ls) > 3: bu += ls[3]
+        listed = bool(self.known_entry())
+        if tag == "cases":
+            self.strict_failures = sorted(b); self.known_cases = sorted(kn); self.budget_cases = sorted(bu); self.known_listed = listed
+        if listed:
+            b = [i for i in b if i not in set(kn)]
+        return sorted(a), sorted(b), errors
+
+    def run(self, tier, seed, replay=None):
+        self.strict_failures, self.known_cases, self.budget_cases, self.known_listed = [], [], [], False
+        rc = ConcProp.run(self, tier, seed, replay)
+        if self.known_listed and self.known_cases:
+            for k in self.known_entry():
+                print("KNOWN-FINDING: property=%s %s: %s" % (self.pid, k["id"], k["what"]))
+        # extra evidence keys
+        ep = os.path.join(EVID, "%s.json" % self.pid)
+        try:
+            ev = json.load(open(ep))
+            ev["coverage"]["strict_spec_failures"] = len(self.strict_failures)
+            ev["coverage"]["known_finding_cases"] = len(self.known_cases)
+            ev["coverage"]["known_finding_listed"] = self.known_listed
+            ev["coverage"]["strict_budget_exhausted"] = len(self.budget_cases)
+            with open(ep, "w") as f:
+                json.dump(ev, f, indent=1, sort_keys=True, default=str)
+        except Exception as e:
+            print("[%s] could not extend the evidence file: %s" % (self.pid, e))
+        print("[%s] strict_failures=%d known_class=%d (listed=%s) strict_budget_exhausted=%d" % (
+            self.pid, len(self.strict_failures), len(self.known_cases), self.known_listed, len(self.budget_cases)))
+        return rc
+
     # ---------------------------------------------------------------- terms / bookkeeping
     def case_term(self, sc, out):
         return "(%d%%nat, %d%%nat, %s)" % (sc["nl"], sc["nth"], out)
@@ -232,6 +319,6 @@ class C10(ConcProp):
             f.write("Definition c : %s := %s.\n" % (self.case_type, case))
             f.write("Eval vm_compute in (fst (validate vexec (vinit (fst (fst c))) 0 (snd c)), "
                     "match fst (validate vexec (vinit (fst (fst c))) 0 (snd c)) with Some i => nth_error (snd c) (N.to_nat i) | None => None end, "
-                    "spec_c10 (fst (fst c)) (snd c)).\n")
+                    "(classify (fst (fst c)) (snd c), spec_c10_strict (fst (fst c)) (snd c), spec_c10_relaxed (fst (fst c)) (snd c), known_c10 (fst (fst c)) (snd c))).\n")
         rc, out = coqc_file(path)
         return out[-1500:]
